@@ -299,6 +299,38 @@ Definition tq_stage_member (k : N) (a : addr) (w : tw) : result bool :=
 Definition tq_stage_count (k : N) (w : tw) : result N :=
   if k <? nlen (t_stages w) then Ok (c_get k (t_cnt w)) else Err.
 
+(* AllStageMemberInfo { member }: one entry per configured stage: (stage id, is_member,
+   per_address_limit) where the last is the stage's per-address limit (non-flex) or the
+   member's stored mint count, 0 when absent (flex) *)
+Fixpoint t_get (k : N) (a : addr) (m : tmem) : option N :=
+  match m with
+  | [] => None
+  | p :: t => if is_key k a p then Some (snd p) else t_get k a t
+  end.
+Fixpoint all_info (flex : bool) (a : addr) (m : tmem) (k : N) (l : list stage) : list (N * bool * N) :=
+  match l with
+  | [] => []
+  | s :: t =>
+      (k, t_has k a m, if flex then match t_get k a m with Some c => c | None => 0 end else s_pal s)
+      :: all_info flex a m (k + 1) t
+  end.
+Definition tq_all_member (a : addr) (w : tw) : result (list (N * bool * N)) :=
+  if valid a then Ok (all_info (t_flex w) a (t_mem w) 0 (t_stages w)) else Err.
+(* tiered-whitelist-flex Member { member }: the mint count stored for the active stage;
+   an error without an active stage or when not stored there; not a query of the non-flex kind *)
+Definition tq_member (now : N) (a : addr) (w : tw) : result N :=
+  if t_flex w then
+    if valid a then
+      match active_index now 0 (t_stages w) with
+      | Some k => match t_get k a (t_mem w) with Some c => Ok c | None => Err end
+      | None => Err
+      end
+    else Err
+  else Err.
+Definition tq_can_execute (a : addr) (w : tw) : result bool :=
+  if valid a then Ok (t_is_admin a w) else Err.
+Definition tq_admin_list (w : tw) : list addr * bool := (t_admins w, t_mutable w).
+
 Definition t_step (self : addr) (w : tw) (eo : env * top) : tw :=
   match t_exec self (fst eo) (snd eo) w with Ok (w', _) => w' | Err => w end.
 Definition t_run (self : addr) (h : list (env * top)) (w : tw) : tw := fold_left (t_step self) h w.
@@ -312,3 +344,7 @@ Definition imm_inst (funds : list coin) (ms : list addr) : result (list addr * N
   do _ <- guard (1 <=? nlen l);
   Ok (l, nlen l).
 Definition imm_includes (a : addr) (st : list addr * N) : bool := existsb (N.eqb a) (fst st).
+(* Config / Admin / PerAddressLimit: instantiate stores the sender as admin and the two
+   numbers verbatim; ExecuteMsg is an empty enum, so every execute call is rejected *)
+Definition imm_config (sender : addr) (pal : N) (bps : option N) : addr * N * option N := (sender, pal, bps).
+Definition imm_exec : result unit := Err.
